@@ -64,11 +64,15 @@ class Registry:
         """The state the key had before the call, decided now if the code never asked: a
         definition that does not even look must still be right for every pre-state."""
         if key not in self.state:
+            # (bound to the subject itself is not a pre-state to add here: the subject would
+            # report such a label -- a representation invariant -- and the shadow subject does not)
             saved, self.writes = self.writes, []
+            subj, self.subject[0] = self.subject[0], None
             try:
                 self._state(key)
             finally:
                 self.writes = saved
+                self.subject[0] = subj
         return self.state[key]
 
     def __contains__(self, key: Any) -> bool:
